@@ -602,7 +602,24 @@ def gen_sadapter_int(ad, lo, hi, pod, rng):
                 return z
         raise NoValue("no value found")
     z = gen_int(rng, lo, hi)
-    return dt.flags_to_pod(flag_cls(ad[1]), z) if pod else z
+    if rng.random() < 0.3:
+        # aim at the bits of the class's composite members (see c08_specs.flag_cls): inside / across the unnamed mask
+        from harness.translate.c08_specs import flag_extras
+        for _nm, mv in flag_extras(ad[1]):
+            if lo <= (z | mv) <= hi and rng.random() < 0.5:
+                z = (z | mv) if rng.random() < 0.5 else (z | (mv & -mv))
+    if not pod:
+        return z
+    # plain-data form computed HERE (not by the code under test): names of the canonical single-bit members that are set, in
+    # definition order, then one int holding every other bit
+    named = 0
+    names = []
+    for nm, fv in ad[1]:
+        named |= fv
+        if z & fv:
+            names.append("F%d" % nm)
+    left = z & ~named
+    return tuple(names) + ((left,) if left else ())
 
 
 def gen_decoded(n, pod, rng):
